@@ -11,6 +11,7 @@ coq/Model/Doc.v `shape`, what that code does with the decoded document:
     gen_manifest_json_shape     -- its JSON fallback --                                            a legacy JSON manifest
   and where the paths a collection follows come from:
     gen_snapshots_key / gen_manifest_list_key     TableMetadata(snapshots=[Snapshot(manifest_list=D[..][..]) for ..])
+    gen_current_snapshot_key / gen_snapshot_id_key   TableMetadata(current_snapshot_id=D[..]) / Snapshot(snapshot_id=item[..])
     gen_list_path_key                             ManifestFile(manifest_path=record[..])
     gen_manifest_file_key / gen_manifest_path_key DataFile(file_path=record[..][..])
 
@@ -366,12 +367,15 @@ def _json_part(fn: ast.FunctionDef, what: str) -> Tuple[str, List[ast.stmt]]:
 
 
 def _json_key(body: List[ast.stmt], name: str, what: str) -> str:
-    """`for x in NAME.get("key", [])` -> key."""
+    """`for x in NAME.get("key", [])` / `for x in NAME["key"]` -> key (which of the two it is shows in the shape: the key is
+    optional resp. required)."""
     for s in body:
         if isinstance(s, ast.For) and isinstance(s.iter, ast.Call) and isinstance(s.iter.func, ast.Attribute) and s.iter.func.attr == "get" \
                 and isinstance(s.iter.func.value, ast.Name) and s.iter.func.value.id == name and s.iter.args:
             return _const_key(s.iter.args[0], what)
-    raise Unsupported(f"{what}: `for .. in {name}.get(key, [])` not found")
+        if isinstance(s, ast.For) and isinstance(s.iter, ast.Subscript) and isinstance(s.iter.value, ast.Name) and s.iter.value.id == name:
+            return _const_key(s.iter.slice, what)
+    raise Unsupported(f"{what}: `for .. in {name}.get(key, [])` / `for .. in {name}[key]` not found")
 
 
 def _flow(w: Walker, cls: str, kw: str, what: str) -> List[str]:
@@ -407,6 +411,10 @@ def gen_meta(src: str) -> str:
     ml = _flow(w, "Snapshot", "manifest_list", "_dict_to_metadata")
     if len(ml) != 1:
         raise Unsupported("_dict_to_metadata: Snapshot(manifest_list=...) is not item[key]")
+    sid = _flow(w, "Snapshot", "snapshot_id", "_dict_to_metadata")
+    cur = _flow(w, "TableMetadata", "current_snapshot_id", "_dict_to_metadata")
+    if len(sid) != 1 or len(cur) != 1:
+        raise Unsupported("_dict_to_metadata: Snapshot(snapshot_id=...) / TableMetadata(current_snapshot_id=...) is not V[key]")
 
     # ---- manifest list
     fl = find_function(fm, "read_manifest_list_file", cls="FileManager")
@@ -461,6 +469,9 @@ Definition gen_metadata_shape : shape :=
 (* TableMetadata(snapshots=[Snapshot(manifest_list=item[K2], ..) for item in D[K1]]) *)
 Definition gen_snapshots_key : string := {coq_str(b['section'])}.
 Definition gen_manifest_list_key : string := {coq_str(ml[0])}.
+(* TableMetadata(current_snapshot_id=D[K], snapshots=[Snapshot(snapshot_id=item[K'], ..) ..]) *)
+Definition gen_current_snapshot_key : string := {coq_str(cur[0])}.
+Definition gen_snapshot_id_key : string := {coq_str(sid[0])}.
 
 (* FileManager.read_manifest_list_file: one record of the Avro container / the legacy JSON document *)
 Definition gen_list_record_shape : shape :=
